@@ -75,7 +75,28 @@ def c03(tier, seed):
 
 @prop('C13')
 def c13(tier, seed):
-    return run_onestep('C13', tier, seed, ['mem'], ['mem', 'alt:/a', 'altalt'], ALL_OPS)
+    from . import handles, overlay
+    ck = Check('C13', tier, seed)
+    prog = load_program()
+    ck.selftest = quick_selftest(prog, seed, 12 if tier == 'quick' else 150)
+    cfgs = ['mem'] if tier == 'quick' else ['mem', 'alt:/a', 'altalt']
+    ucases = step_cases(cfgs, 'U5', ALL_OPS, ['C13'], tier, seed, dlens=[1])
+    if tier != 'quick':
+        ucases += step_cases(['mem'], 'U8', ALL_OPS, ['C13'], tier, seed, dlens=[1], max_shapes=200)
+        ucases += step_cases(['mem'], 'U5', ALL_OPS, ['C13'], tier, seed, dlens=[1], release=True)
+    ck.add(run_cases(prog, onestep.run_step_case, ucases), 'every operation (wrong types, root, composites) on every path from every well-formed tree')
+    rc = reader_cases(tier, 'C13') + reader_cases(tier, 'C13', release=True)
+    ck.add(run_cases(prog, handles.run_reader_case, rc), 'reader scripts with any 64-bit offset, zero-length buffers; dev and release arithmetic')
+    ck.add(run_cases(prog, handles.run_writer_case, writer_cases(tier, 'C13')), 'writer sessions')
+    ck.add(run_cases(prog, handles.run_lifecycle_case, [{'cfg': c} for c in ['mem', 'alt', 'ovl_upper', 'ovl_lower']]), 'handles used after their file was removed')
+    ocs = ovl_cases('UO3', 2, ['C13'], seed, ncfg=40 if tier == 'quick' else None, k1_ops=overlay.HIST_OPS + overlay.OBS_OPS, k2=4 if tier == 'quick' else 30)
+    ck.add(run_cases(prog, overlay.run_history_case, ocs), 'overlay histories')
+    ck.bounds = {'universe': 'U5 (+U8 thorough)', 'reader': 'content 0..3/4 bytes, scripts of 3/4 steps, any 64-bit offset', 'overlay': 'UO3, 2 layers, k<=2',
+                 'documented_panic_excluded': 'OverlayFS::new(&[])'}
+    ck.assumptions = COMMON_ASSUMPTIONS + ['panics inside std/dependencies that the models do not describe are outside the claim; lock poisoning is out of scope',
+                                           'async API: reader kernels only (see C15); EmbeddedFS: see C18; PhysicalFS on hostile directory content: not encoded']
+    ck.rule = 'every execution path that ends in a panic (MIR assert, modelled library panic, explicit panic!) or a self-deadlock is a counterexample'
+    return ck.finish(prog)
 
 
 @prop('C06')
@@ -215,3 +236,71 @@ def c08(tier, seed):
                 ('UO4', 2, dict(ncfg=300, k1_ops=overlay.HIST_OPS + overlay.TIME_OPS, k2=20)),
                 ('UO3', 4, dict(ncfg=150, k1_ops=overlay.HIST_OPS, k2=5))]
     return run_overlay('C08', tier, seed, plan)
+
+
+# ------------------------------------------------------------------------------------------ handles
+
+def reader_cases(tier, prop_, release=False):
+    cases = []
+    cfgs = ['mem', 'alt', 'ovl_lower'] if tier == 'quick' else ['mem', 'alt', 'ovl_lower', 'ovl_upper']
+    k = 3 if tier == 'quick' else 4
+    for cfg in cfgs:
+        for clen in range(0, 4 if tier == 'quick' else 5):
+            if cfg != 'mem' and clen not in (0, 2):
+                continue
+            cases.append({'cfg': cfg, 'clen': clen, 'k': k if cfg == 'mem' else min(k, 2), 'prop': prop_, 'release': release})
+    return cases
+
+
+def writer_cases(tier, prop_):
+    cases = []
+    cfgs = ['mem', 'alt', 'ovl_lower', 'ovl_upper']
+    k = 2 if tier == 'quick' else 3
+    for cfg in cfgs:
+        seqs = [('create',), ('append',), ('create', 'append'), ('append', 'append')]
+        if tier != 'quick':
+            seqs += [('append', 'create'), ('create', 'create'), ('create', 'append', 'append')]
+        for modes in seqs:
+            kk = k if (cfg == 'mem' and len(modes) == 1) else max(1, k - 1)
+            if len(modes) == 3:
+                kk = 1
+            cases.append({'cfg': cfg, 'k': kk, 'sessions': len(modes), 'modes': modes, 'prop': prop_, 'pre': 2})
+        cases.append({'cfg': cfg, 'k': 1, 'sessions': 1, 'modes': ('append',), 'prop': prop_, 'pre': None})
+        cases.append({'cfg': cfg, 'k': k, 'sessions': 1, 'modes': ('create',), 'prop': prop_, 'pre': None})
+    return cases
+
+
+HANDLE_ASSUMPTIONS = COMMON_ASSUMPTIONS[:2] + [
+    'std::io::Cursor<Vec<u8>> is a contract model (seek: checked signed add; write: zero-fill); validated against the real Cursor by the native selftest',
+    'writer seeks are constrained so that the write position stays within 4 bytes of the end (zero-fill gap bound)',
+    'io::copy / read_to_end use a 2-byte model buffer (the real 8 KiB constant is std-internal)',
+]
+
+
+@prop('C14')
+def c14(tier, seed):
+    from . import handles
+    ck = Check('C14', tier, seed)
+    prog = load_program()
+    ck.selftest = quick_selftest(prog, seed, 12 if tier == 'quick' else 150, kinds=['mem', 'alt', 'ovl'])
+    ck.add(run_cases(prog, handles.run_reader_case, reader_cases(tier, 'C14')), 'reader scripts vs reference cursor (symbolic 64-bit offsets)')
+    ck.add(run_cases(prog, handles.run_writer_case, writer_cases(tier, 'C14')), 'writer sessions vs reference growable cursor')
+    ck.bounds = {'content': '0..%d symbolic bytes' % (3 if tier == 'quick' else 4), 'reader_script_steps': 3 if tier == 'quick' else 4,
+                 'offsets': 'any 64-bit value (solver variable)', 'read_buffer_sizes': [0, 1, 3], 'writer_script_steps': 2 if tier == 'quick' else 3}
+    ck.assumptions = HANDLE_ASSUMPTIONS
+    ck.rule = 'a state = (configuration, content length, session modes); a transition = one execution path of one script; all scripts of the bounded length are explored'
+    return ck.finish(prog)
+
+
+@prop('C04')
+def c04(tier, seed):
+    from . import handles
+    ck = Check('C04', tier, seed)
+    prog = load_program()
+    ck.selftest = quick_selftest(prog, seed, 12 if tier == 'quick' else 150, kinds=['mem', 'alt', 'ovl'])
+    ck.add(run_cases(prog, handles.run_writer_case, writer_cases(tier, 'C04')), 'write sessions (create/append x write/seek/flush) + fresh reads, metadata len, copy/move')
+    ck.bounds = {'sessions': '1..3 per file', 'script_steps': 2 if tier == 'quick' else 3, 'written_bytes': '1..2 symbolic per write',
+                 'pre_existing_bytes': '0 or 2 symbolic', 'read_buffer_sizes': [1, 3]}
+    ck.assumptions = HANDLE_ASSUMPTIONS
+    ck.rule = 'a state = (configuration, session modes, pre-existing content); transitions = execution paths over all scripts of the bounded length'
+    return ck.finish(prog)
